@@ -10,7 +10,10 @@ import (
 	"path/filepath"
 	"strconv"
 	"strings"
+	"sync"
+	"sync/atomic"
 
+	NoKV "github.com/feichai0017/NoKV"
 	"github.com/feichai0017/NoKV/utils"
 	"github.com/feichai0017/NoKV/vfs"
 
@@ -74,6 +77,9 @@ func (e *dirLockEngine) Gen(r *hlib.Rand, tier string) []string {
 		}
 	}
 	ops = append(ops, "dl.stat")
+	if r.Chance(8) {
+		ops = append(ops, "dl.dbclose") // a real DB: nobody gets its directory before Close has returned
+	}
 	return ops
 }
 
@@ -206,6 +212,8 @@ func (e *dirLockEngine) Exec(ops []string) []string {
 				flag = "multi"
 			}
 			out[i] = flag + ":" + name
+		case f[0] == "dl.dbclose" && len(f) == 1:
+			out[i] = dbCloseProbe(dir)
 		case f[0] == "dl.stat" && len(f) == 1:
 			if _, err := os.Stat(filepath.Join(work, "LOCK")); err == nil {
 				out[i] = "exists"
@@ -217,4 +225,81 @@ func (e *dirLockEngine) Exec(ops []string) []string {
 		}
 	}
 	return out
+}
+
+// dbCloseProbe opens a real DB on a FaultFS whose hook is a probe: on every file operation the
+// closing DB performs on a file of its working directory (other than LOCK itself) a second
+// contender tries AcquireDirLock.  It must never succeed while the DB is still closing, and must
+// succeed once Close has returned.
+func dbCloseProbe(base string) (res string) {
+	defer func() {
+		if r := recover(); r != nil {
+			res = fmt.Sprintf("panic:%v", r)
+		}
+	}()
+	dir, err := os.MkdirTemp(base, "dbclose-")
+	if err != nil {
+		return "harness-error"
+	}
+	defer os.RemoveAll(dir)
+	lockPath := filepath.Join(dir, "LOCK")
+	var (
+		armed    atomic.Bool
+		dbp      atomic.Pointer[NoKV.DB]
+		mu       sync.Mutex
+		probes   int
+		intruder *utils.DirLock
+	)
+	hook := func(op vfs.Op, path string) error {
+		if !armed.Load() || path == lockPath || !strings.HasPrefix(path, dir) {
+			return nil
+		}
+		db := dbp.Load()
+		if db == nil {
+			return nil
+		}
+		mu.Lock()
+		defer mu.Unlock()
+		if intruder != nil || db.IsClosed() {
+			return nil
+		}
+		probes++
+		if l, err := utils.AcquireDirLock(dir, nil); err == nil {
+			intruder = l
+		}
+		return nil
+	}
+	opt := NoKV.NewDefaultOptions()
+	opt.WorkDir = dir
+	opt.FS = vfs.NewFaultFS(vfs.OSFS{}, hook)
+	opt.EnableWALWatchdog = false
+	opt.ValueLogGCInterval = 0
+	db := NoKV.Open(opt)
+	dbp.Store(db)
+	if err := db.Set([]byte("verif-c33-key"), []byte("verif-c33-value")); err != nil {
+		_ = db.Close()
+		return "set-error"
+	}
+	armed.Store(true)
+	closeErr := db.Close()
+	armed.Store(false)
+	mu.Lock()
+	got, n := intruder, probes
+	mu.Unlock()
+	if got != nil {
+		_ = got.Release()
+		return "intruder"
+	}
+	if closeErr != nil {
+		return "close-error"
+	}
+	if n == 0 {
+		return "noprobes"
+	}
+	l, err := utils.AcquireDirLock(dir, nil)
+	if err != nil {
+		return "held-after-close"
+	}
+	_ = l.Release()
+	return "ok"
 }
